@@ -91,8 +91,8 @@ Example C08_ex :
                        mkfdef true [68] [50;44;102;108;97;116] [] (TInt 8)];
             mksdef [] [mkfdef true [65] [49] [] (TInt 0); mkfdef true [66] [48;49] [] TString];
             mksdef [] [mkfdef true [65] [45;49] [] (TInt 0)]] in
-  codec_for (mkcfg false false false false false) E 4 (TStruct 0) []
+  codec_for (mkcfg false false false false false false) E 4 (TStruct 0) []
     = Ok (CStruct [] 4 [mkfld 0 1 [65] (CInt 64); mkfld 3 2 [68] (CFlat 8)]) /\
-  codec_for (mkcfg false false false false false) E 4 (TStruct 1) [] = Err /\
-  codec_for (mkcfg false false false false false) E 4 (TStruct 2) [] = Err.
+  codec_for (mkcfg false false false false false false) E 4 (TStruct 1) [] = Err /\
+  codec_for (mkcfg false false false false false false) E 4 (TStruct 2) [] = Err.
 Proof. vm_compute. repeat split; reflexivity. Qed.
